@@ -30,6 +30,8 @@ thread_local! {
     static LEVEL: std::cell::Cell<log::LevelFilter> = const { std::cell::Cell::new(log::LevelFilter::Trace) };
     static LOGS: RefCell<Vec<(log::Level, String)>> = RefCell::new(Vec::new());
     static PANIC_MSG: RefCell<Option<String>> = RefCell::new(None);
+    /// > 0 while code under test runs inside `guarded`; a panic outside is a harness bug and is printed
+    static GUARD_DEPTH: std::cell::Cell<u32> = const { std::cell::Cell::new(0) };
 }
 
 struct CaptureLog;
@@ -65,6 +67,9 @@ pub fn init() {
             } else {
                 "panic".to_string()
             };
+            if GUARD_DEPTH.with(|d| d.get()) == 0 {
+                eprintln!("harness panic at {loc}: {msg}\n{}", std::backtrace::Backtrace::force_capture());
+            }
             PANIC_MSG.with(|p| *p.borrow_mut() = Some(format!("{loc}: {msg}")));
         }));
     });
@@ -88,7 +93,10 @@ pub fn take_logs() -> Vec<(log::Level, String)> {
 /// Runs `f`, converting a panic into `Err(location: message)`.
 pub fn guarded<T>(f: impl FnOnce() -> T) -> Result<T, String> {
     init();
-    match catch_unwind(AssertUnwindSafe(f)) {
+    GUARD_DEPTH.with(|d| d.set(d.get() + 1));
+    let r = catch_unwind(AssertUnwindSafe(f));
+    GUARD_DEPTH.with(|d| d.set(d.get().saturating_sub(1)));
+    match r {
         Ok(v) => Ok(v),
         Err(_) => Err(PANIC_MSG
             .with(|p| p.borrow_mut().take())
